@@ -4,6 +4,7 @@ import YawVerif.Model.Reader
 import YawVerif.Model.Pipeline
 import YawVerif.Model.Parquet
 import YawVerif.Model.Groupby
+import YawVerif.Model.Probe
 
 open Yaw Yaw.Proto Yaw.Drv
 
@@ -63,8 +64,23 @@ def hGroupby : R String := do
   let gs := Yaw.Groupby.groupby l
   pure (";".intercalate (gs.map fun g => s!"{g.1}:" ++ ",".intercalate (g.2.map toString)))
 
+/-- `probe k len_1 … len_k p idx_1 … idx_p` → positions (0-based row numbers) the selection loop of `get_probe` keeps when
+    the rows 0 … n−1 arrive in chunks of the given lengths -/
+def hProbe : R String := do
+  let k ← nat
+  let lens ← nats k
+  let p ← nat
+  let idx ← ints p
+  let mut chunks : List (List Nat) := []
+  let mut at_ := 0
+  for l in lens do
+    chunks := chunks ++ [(List.range l).map (· + at_)]
+    at_ := at_ + l
+  pure (" ".intercalate ((Yaw.Probe.probeLoop chunks idx.toList).map toString))
+
 def handler (kind : String) : R String :=
   match kind with
+  | "probe" => hProbe
   | "requests" => hRequests
   | "randsizes" => hRandSizes
   | "split" => hSplit
